@@ -586,7 +586,7 @@ func (o *overlap) execute() (err error) {
 	for i := range sc.Targets {
 		spec := &sc.Targets[i]
 		name := tname(i)
-		w.tg[name] = &tgRun{name: name, idx: i, spec: &Target{Addr: spec.Addr, Meta: spec.Meta, Attempts: spec.Attempts}}
+		w.tg[name] = &tgRun{name: name, idx: i, spec: &Target{Addr: spec.Addr, Meta: spec.Meta, Attempts: spec.Attempts, Errs: spec.Errs}}
 		protos[i] = &tpb.Target{Addresses: []string{addrOf(spec.Addr)}}
 		if spec.Meta != "" {
 			protos[i].Meta = map[string]string{"receive_timeout": spec.Meta}
